@@ -3,6 +3,11 @@ import json, os
 V = os.path.dirname(os.path.dirname(os.path.abspath(__file__)))
 ALL = ['C%02d' % i for i in range(1, 21)]
 CLAIMED = {
+ 'C02': dict(
+   text='Machine-checked proof (Coq) by induction on the type term, for every wire type of types/basic.py and every nesting of PrefixedArray: for every in-domain value the model encoder returns bytes (never an error, never out of fuel), decoding those bytes followed by ANY further bytes returns the value (exactly; for Angle the nearest 1/256 turn, proved within half a step modulo whole turns; for FixedPoint the truncation, proved within 2^-n) and exactly the remaining bytes; every strict prefix of an encoding of a self-delimiting type decodes to an error. Integers are proved to be the k big-endian base-256 digits of v mod 256^k with out-of-range values refused; Float/Double are proved, on Flocq binary32/binary64, to be the big-endian IEEE-754 bit pattern and to read back as the same datum; strings are VarInt(byte length) + UTF-8 with an executable RFC 3629 encoder/decoder proved inverse. The models mirror basic.py (repaired code: FixedPoint.send passes the socket, Angle wraps 256 to 0, String.read raises on truncation) and are tied to the source on every run by differential execution of the extracted model against the real Type.send/read: exhaustive 8/16-bit integers, booleans, all 256 angle bytes, boundary+random 32/64-bit integers, float bit patterns (zeros, subnormals, infinities, NaN), strings of every UTF-8 width around the 1/2/3-byte prefix boundaries, byte arrays, UUIDs, fixed point on six base/precision pairs, nested arrays, every strict prefix, a malformed stream, plus an arithmetic oracle independent of both.',
+   note='Trusted: Coq kernel; extraction + driver; harness generators and the float<->bit-pattern bridge (float.hex/frexp, independent of struct); CPython struct/str.encode/uuid are library code mirrored by Gallina re-implementations and validated, not verified. Axioms: none except the two Float/Double theorems, which rest on Flocq/Reals: ClassicalDedekindReals.sig_not_dec, sig_forall_dec, FunctionalExtensionality.functional_extensionality_dep, Classical_Prop.classic. Angle.send/FixedPoint use binary64 arithmetic in impl and exact rationals in the model: inputs within 1e-9 of a rounding tie are excluded from the correspondence. NBT is outside the property (abstract splitter).',
+   technique='Coq proof (structural induction on the type AST; Flocq for IEEE-754; lia for two\'s complement) + extracted-model differential correspondence',
+   design='3/C02'),
  'C03': dict(
    text='Machine-checked proof (Coq) for all byte strings and all integers: VarInt/VarLong read never runs out of fuel, examines at most max_bytes+1 bytes, returns a non-negative number and the exact suffix, or EOF / too-long; send terminates for every integer (canonical LEB128 for n>=0, ValueError for n<0); canonical form unique; read(send n ++ rest) = (n, rest) on [0,128^(max_bytes+1)) which contains [0,2^32) / [0,2^64); size n = encoded length below 2^84. The model is a line-by-line image of the three Python functions and is tied to the source on every run by differential execution of the extracted model against VarInt/VarLong.read/send/size (exhaustive small domains, all continuation-bit shapes, truncations, boundaries, seeded random).',
    note='Trusted: Coq kernel; extraction (ExtrOcamlBasic) and driver.ml; the correspondence generators; CPython int/bytes/struct semantics. No axioms (all theorems closed under the global context). Negative sends are judged by a watchdog subprocess.',
